@@ -75,12 +75,15 @@ def extra_catalog():
     # "same configuration" includes sharing constructor arguments: build the generator object (or the numpy
     # database handed to it) ONCE and give it to every instance; a generator that mutates its arguments or caches
     # per-call results then makes fresh instances disagree
-    def shared(name, env_cls, make_gen):
+    def shared(name, env_cls, make_gen, cousin_kwargs=None):
         try:
             gen = make_gen()
         except Exception:  # noqa: BLE001
             return
-        out[name] = lambda: env_cls(generator=gen)
+        f = lambda: env_cls(generator=gen)  # noqa: E731
+        if cousin_kwargs:       # another environment built around the SAME generator object with other arguments (a short-
+            f.cousin = lambda: env_cls(generator=gen, **cousin_kwargs)   # horizon evaluation env next to the training env)
+        out[name] = f
 
     try:
         import os
@@ -98,10 +101,10 @@ def extra_catalog():
     try:
         from jumanji.environments.routing.maze.generator import RandomGenerator as MazeGen
 
-        shared("Maze.SharedGenerator", E.Maze, lambda: MazeGen(num_rows=5, num_cols=7))
+        shared("Maze.SharedGenerator", E.Maze, lambda: MazeGen(num_rows=5, num_cols=7), dict(time_limit=3))
         from jumanji.environments.routing.connector.generator import RandomWalkGenerator as CG
 
-        shared("Connector.SharedGenerator", E.Connector, lambda: CG(grid_size=6, num_agents=3))
+        shared("Connector.SharedGenerator", E.Connector, lambda: CG(grid_size=6, num_agents=3), dict(time_limit=4))
         from jumanji.environments.packing.knapsack.generator import RandomGenerator as KG
 
         shared("Knapsack.SharedGenerator", E.Knapsack, lambda: KG(num_items=8, total_budget=2.0))
@@ -110,13 +113,28 @@ def extra_catalog():
         shared("TSP.SharedGenerator", E.TSP, lambda: TG(num_cities=6))
         from jumanji.environments.routing.sokoban.generator import ToyGenerator as SG
 
-        shared("Sokoban.SharedGenerator", E.Sokoban, lambda: SG())
+        shared("Sokoban.SharedGenerator", E.Sokoban, lambda: SG(), dict(time_limit=5))
         from jumanji.environments.logic.rubiks_cube.generator import ScramblingGenerator as RG
 
-        shared("RubiksCube.SharedGenerator", E.RubiksCube, lambda: RG(cube_size=3, num_scrambles_on_reset=5))
+        shared("RubiksCube.SharedGenerator", E.RubiksCube, lambda: RG(cube_size=3, num_scrambles_on_reset=5), dict(time_limit=4))
         from jumanji.environments.packing.bin_pack.generator import RandomGenerator as BG
 
         shared("BinPack.SharedGenerator", E.BinPack, lambda: BG(max_num_items=6, max_num_ems=15, split_num_same_items=1))
+        from jumanji.environments.routing.mmst.generator import SplitRandomGenerator as MSG
+
+        shared("MMST.SharedGenerator", E.MMST, lambda: MSG(num_nodes=10, num_edges=15, max_degree=4, num_agents=2,
+                                                             num_nodes_per_agent=2, max_step=70), dict(time_limit=8))
+        from jumanji.environments.routing.cleaner.generator import RandomGenerator as CLG
+
+        shared("Cleaner.SharedGenerator", E.Cleaner, lambda: CLG(num_rows=4, num_cols=5, num_agents=2), dict(time_limit=3))
+        from jumanji.environments.routing.lbf.generator import RandomGenerator as LG2
+
+        shared("LevelBasedForaging.SharedGenerator", E.LevelBasedForaging,
+               lambda: LG2(grid_size=6, fov=6, num_agents=2, num_food=2), dict(time_limit=5))
+        from jumanji.environments.logic.sliding_tile_puzzle.generator import RandomWalkGenerator as STG
+
+        shared("SlidingTilePuzzle.SharedGenerator", E.SlidingTilePuzzle, lambda: STG(grid_size=3, num_random_moves=8),
+               dict(time_limit=4))
     except Exception:  # noqa: BLE001
         pass
     return out
@@ -433,6 +451,17 @@ def drive_env(name, tier, seed):
             evs.append({"k": "call", "env": name, "fn": "reset", "mode": f"vmap{B}", "seq": seq[0], "args_d": "x", "args_after_d": "x",
                         "outcome": "raise:" + type(e).__name__, "note": "", "detail": str(e)[:200], "cls": -1, "result_d": "none"})
 
+    # ---- another environment built around the same generator object with other arguments ----
+    cz = getattr(mk, "cousin", None)
+    if cz is not None:
+        try:
+            ec = cz()
+            jax.jit(ec.reset)(K2)
+        except Exception:  # noqa: BLE001  (a cousin that cannot be built is skipped)
+            ec = None
+        if ec is not None:
+            call("reset", "eager_after_cousin", env.reset, (K1,), note="a sibling env now shares this env's generator object")
+            call("reset", "fresh_instance_after_cousin", jax.jit(mk().reset), (K1,))
     # ---- other configurations of the same class built and used in between ----
     sibs = siblings(name) if "." not in name else []
     for si, mk_sib in enumerate(sibs):
